@@ -104,6 +104,7 @@ type Stats struct {
 	Decisions              int            `json:"symbolic_branch_decisions"`
 	FastDecisions          int            `json:"value_set_decisions"`
 	DischargedFast         int            `json:"discharged_value_set"`
+	CheapFPMisses          int            `json:"fp_queries_escalated_to_one_shot_solvers"`
 	SkippedAfterViolations int            `json:"obligations_skipped_after_20_violations_of_same_assert"`
 	Forks                  int            `json:"forks"`
 	Obligations            int            `json:"obligations"`
@@ -148,6 +149,7 @@ func (s *Stats) merge(o *Stats) {
 	s.FastDecisions += o.FastDecisions
 	s.DischargedFast += o.DischargedFast
 	s.SkippedAfterViolations += o.SkippedAfterViolations
+	s.CheapFPMisses += o.CheapFPMisses
 	s.Forks += o.Forks
 	s.Obligations += o.Obligations
 	s.DischargedConc += o.DischargedConc
@@ -263,6 +265,18 @@ func (q *workQueue) pop() ([]int32, bool) {
 		q.cond.Wait()
 		q.idle--
 	}
+}
+
+// hungry reports whether some worker is waiting for work and the shared queue
+// is empty (then busy workers donate part of their local stacks).
+func (q *workQueue) hungry() bool {
+	q.mu.Lock()
+	defer q.mu.Unlock()
+	return q.idle > 0 && len(q.items) == 0 && !q.done
+}
+
+func (i *interpreter) pushWork(p []int32) {
+	i.local = append(i.local, p)
 }
 
 func (q *workQueue) stop() {
@@ -396,6 +410,26 @@ func (i *interpreter) checkSat(c *Term, timeoutMs int, wantModel bool) (string, 
 	p := i.path
 	useStandalone := p.pcFP || (c != nil && c.fp)
 	if useStandalone {
+		// cheap attempt first: most floating-point feasibility questions (x == 0,
+		// isNaN, comparisons with constants) are decided by the incremental
+		// solver in milliseconds; only the hard ones go to fresh processes
+		if r := i.solver.check(c, 250, wantModel); r == "sat" || r == "unsat" {
+			if r == "sat" && wantModel {
+				vals, err := i.solver.getValues(i.ndVars())
+				i.solver.endCheck()
+				if err == nil {
+					return r, vals
+				}
+			} else {
+				return r, nil
+			}
+		} else if r == "died" {
+			i.solverDied()
+		} else {
+			// the cheap attempt timed out: not a verdict, the one-shot solvers decide
+			i.solver.nUnknown--
+			i.stats.CheapFPMisses++
+		}
 		var vars []*Term
 		if wantModel {
 			vars = i.ndVars()
@@ -463,7 +497,7 @@ func (i *interpreter) branch(c *Term) bool {
 			alt := make([]int32, len(p.decisions)+1)
 			copy(alt, p.decisions)
 			alt[len(p.decisions)] = 0
-			i.queue.push(alt)
+			i.pushWork(alt)
 			i.record(1)
 			i.addPC(c)
 			return true
@@ -495,7 +529,7 @@ func (i *interpreter) branch(c *Term) bool {
 	alt := make([]int32, len(p.decisions)+1)
 	copy(alt, p.decisions)
 	alt[len(p.decisions)] = 0
-	i.queue.push(alt)
+	i.pushWork(alt)
 	i.record(1)
 	i.addPC(c)
 	return true
@@ -564,7 +598,7 @@ func (i *interpreter) choice(n int) int {
 		alt := make([]int32, len(p.decisions)+1)
 		copy(alt, p.decisions)
 		alt[len(p.decisions)] = int32(k)
-		i.queue.push(alt)
+		i.pushWork(alt)
 	}
 	i.stats.Forks += n - 1
 	i.record(0)
